@@ -101,10 +101,10 @@ theorem members_assigned_in_init :
 theorem seed_only_via_rng :
     Gen.initRngAssignGrid = "std::mt19937(seed)" ∧ Gen.initRngAssignGraph = "std::mt19937(seed)" ∧
     Gen.rngMentions = [("SimulationAlgorithm3DBase.hpp", "std::mt19937rng"),
-      ("SimulationAlgorithm3DBase.hpp", "returnstd::poisson_distribution<int>(lambda)(rng)"),
+      ("SimulationAlgorithm3DBase.hpp", "returnstd::poisson_distribution<longlong>(lambda)(rng)"),
       ("SimulationAlgorithm3DBase.hpp", "this->rng=std::mt19937(seed)"),
       ("SimulationAlgorithmGraphBase.hpp", "std::mt19937rng"),
-      ("SimulationAlgorithmGraphBase.hpp", "returnstd::poisson_distribution<int>(lambda)(rng)"),
+      ("SimulationAlgorithmGraphBase.hpp", "returnstd::poisson_distribution<longlong>(lambda)(rng)"),
       ("SimulationAlgorithmGraphBase.hpp", "this->rng=std::mt19937(seed)"),
       ("Gillespie3D.hpp", "doubler=uiud(rng)*a0"), ("Gillespie3D.hpp", "dt=log(1/uiud(rng))/a0"),
       ("GillespieGraph.hpp", "doubler=uiud(rng)*a0"), ("GillespieGraph.hpp", "dt=log(1/uiud(rng))/a0")] :=
